@@ -55,6 +55,14 @@ HistoricalExact(e) == ("hist" \in DOMAIN e) => (e.hist.ok /\ e.hist.same)
 \* C13 (chain level): the read-only view of the head returns exactly what the node committed for its head
 ReadonlyHeadExact(e) == ("rohead" \in DOMAIN e) => (e.rohead.ok /\ e.rohead.same)
 
+\* C01: a replica that was away and is offered the canonical chain in batches by full sync accepts it and ends with the
+\* observation of the replicas that followed the chain block by block (the reference observation is bound to the head
+\* the specification recorded for r0 when the batch reaches the current head)
+SyncedAgrees(e, hd) ==
+    /\ e.verdict = "ok"
+    /\ e.obs = e.refobs
+    /\ (e.head = hd["r0"][1] => e.obs.hash = hd["r0"][2])
+
 Broken(pre, e) ==
     (IF ~ProposedAccepted(pre, e) THEN {"ProposedAccepted"} ELSE {}) \cup
     (IF ~Agreement(e) THEN {"Agreement"} ELSE {}) \cup
@@ -89,9 +97,15 @@ TReset == /\ l <= Len(Trace) /\ Trace[l].ev = "Reset" /\ l' = l + 1
           /\ heads' = [r \in DOMAIN Trace[l].obs |-> <<Trace[l].obs[r].height, Trace[l].obs[r].hash>>]
           /\ UNCHANGED bad
 
-TOther == /\ l <= Len(Trace) /\ Trace[l].ev \notin {"Genesis", "Block", "Reset"} /\ l' = l + 1 /\ UNCHANGED <<heads, bad>>
+TCatchup == /\ l <= Len(Trace) /\ Trace[l].ev = "Catchup" /\ l' = l + 1
+            /\ LET b == IF SyncedAgrees(Trace[l], heads) THEN {} ELSE {"SyncedAgrees"} IN
+               /\ bad' = bad \cup b
+               /\ Report(b \ bad, l)
+            /\ UNCHANGED heads
 
-TraceNext == TGenesis \/ TBlock \/ TReset \/ TOther
+TOther == /\ l <= Len(Trace) /\ Trace[l].ev \notin {"Genesis", "Block", "Reset", "Catchup"} /\ l' = l + 1 /\ UNCHANGED <<heads, bad>>
+
+TraceNext == TGenesis \/ TBlock \/ TReset \/ TCatchup \/ TOther
 TraceSpec == TraceInit /\ [][TraceNext]_vars
 
 TraceAccepted ==
